@@ -146,7 +146,8 @@ MapStep(st, mp) ==
          LET f == MappingRes(mp, st.from, 1)
              t == MappingRes(mp, st.to, -1) IN
          IF Deleted(f) /\ Deleted(t) THEN Dropped
-         ELSE [st EXCEPT !.from = f.pos, !.to = Max2(f.pos, t.pos)]
+         \* (the pinned library does not carry the structure flag over when rebasing a replace step)
+         ELSE [st EXCEPT !.from = f.pos, !.to = Max2(f.pos, t.pos), !.structure = FALSE]
     [] st.type = "replaceAround" ->
          LET f == MappingRes(mp, st.from, 1)
              t == MappingRes(mp, st.to, -1)
